@@ -513,7 +513,39 @@ impl Property for C07 {
         ];
         let stack = (node_strategy(true, 2), proptest::collection::vec((gfilter_strategy(), any::<bool>()), 0..3), proptest::collection::vec(proptest::option::weighted(0.12, 0u8..9), 6)).prop_map(|(tree, globals, veto)| StackDesc { tree, globals, veto });
         let max = tier.pick(30usize, 45usize);
-        (proptest::collection::vec(stack, 1..3), proptest::collection::vec(op, 1..max)).prop_map(|(stacks, ops)| Case { stacks, ops, no_steer: false }).boxed()
+        let general = (proptest::collection::vec(stack, 1..3), proptest::collection::vec(op.clone(), 1..max)).prop_map(|(stacks, ops)| Case { stacks, ops, no_steer: false });
+        // template: a filtered layer inside a filtered subtree; a span the OUTER filter rejects and
+        // the inner one accepts is entered, a descendant that both accept then goes through its
+        // whole life cycle (the inner leaf has to see the filtered view in every callback)
+        let nested = (prop_oneof![Just(1u8), Just(3u8)], 0u8..3, any::<bool>(), any::<bool>(), proptest::collection::vec(op, 0..6), proptest::collection::vec(proptest::option::weighted(0.1, 0u8..9), 6)).prop_map(|(r1, tg, sibling, inner_first, extra, veto)| {
+            let inner = Node::Filtered(Box::new(Node::Leaf), FExpr::Level(5));
+            let pair = if inner_first { Node::Layered(Box::new(inner), Box::new(Node::Leaf)) } else { Node::Layered(Box::new(Node::Leaf), Box::new(inner)) };
+            let mut tree = Node::Filtered(Box::new(pair), FExpr::Level(r1));
+            if sibling {
+                tree = Node::Layered(Box::new(tree), Box::new(Node::Leaf));
+            }
+            // A: above the outer filter's level (TRACE, or INFO when the outer filter is ERROR)
+            let a_cs = if r1 == 1 { 3 + tg } else { 6 + tg };
+            let b_cs = tg; // ERROR: accepted by everybody
+            let mut ops = vec![
+                Op::Open { t: 0, cs: a_cs, slot: 0 },
+                Op::Enter { t: 0, slot: 0 },
+                Op::Open { t: 0, cs: b_cs, slot: 1 },
+                Op::Enter { t: 0, slot: 1 },
+                Op::Record { t: 0, slot: 1 },
+                Op::Event { t: 0, cs: b_cs },
+                Op::Exit { t: 0 },
+                Op::Close { t: 0, slot: 1 },
+                Op::Exit { t: 0 },
+                Op::Close { t: 0, slot: 0 },
+            ];
+            for (k, e) in extra.into_iter().enumerate() {
+                let at = (k * 3 + 2).min(ops.len());
+                ops.insert(at, e);
+            }
+            Case { stacks: vec![StackDesc { tree, globals: vec![], veto }], ops, no_steer: false }
+        });
+        prop_oneof![6 => general, 1 => nested].boxed()
     }
     fn run(&self, case: &Case) -> Outcome {
         run_case(case)
